@@ -1,6 +1,52 @@
-//! C01: implementation-side case runners (see props/c01.py). Stub until the property is built.
+//! C01: outcome classes of the terminal emulations on arbitrary byte streams (see props/c01.py).
+//!   c01run <emu> <music> <w> <h> <hex>  feed every byte (b as char); an Err is recorded and feeding continues
+//!                                       -> n_ok n_err first_err_index(-1) cx cy bw bh tw th nlines
+//! A panic unwinds to the worker (reported as `panic file:line`); aborts / stack overflows / timeouts / OOM are
+//! classified by the driver from the way the worker dies.
+use crate::c09::Term;
+use crate::util::unhex;
 use crate::Obs;
+use icy_engine::TextPane;
 
-pub fn run(_kind: &str, _args: &[&str]) -> Option<Obs> {
-    None
+fn c01run(args: &[&str]) -> Obs {
+    let emu: usize = args[0].parse().unwrap();
+    let music: usize = args[1].parse().unwrap();
+    let w: i32 = args[2].parse().unwrap();
+    let h: i32 = args[3].parse().unwrap();
+    let bytes = unhex(args[4]);
+    let mut t = Term::new(emu, music, w, h);
+    let (mut n_ok, mut n_err, mut first_err) = (0i64, 0i64, -1i64);
+    for (i, b) in bytes.iter().enumerate() {
+        let cls = t.feed(*b);
+        if cls == 1 {
+            n_err += 1;
+            if first_err < 0 {
+                first_err = i as i64;
+            }
+        } else {
+            n_ok += 1;
+        }
+    }
+    // joining the sixel decode threads is part of consuming a stream (C14 owns their semantics; here: must not crash)
+    let _ = t.buf.update_sixel_threads();
+    let p = t.caret.get_position();
+    Ok(vec![
+        n_ok,
+        n_err,
+        first_err,
+        p.x as i64,
+        p.y as i64,
+        t.buf.get_width() as i64,
+        t.buf.get_height() as i64,
+        t.buf.terminal_state.get_width() as i64,
+        t.buf.terminal_state.get_height() as i64,
+        t.buf.layers[0].lines.len() as i64,
+    ])
+}
+
+pub fn run(kind: &str, args: &[&str]) -> Option<Obs> {
+    match kind {
+        "c01run" => Some(c01run(args)),
+        _ => None,
+    }
 }
